@@ -10,8 +10,9 @@ CORR = "Corr.C18"
 REQUIRES = ["Model.Router", "Spec.C18"]
 PROOF_FILES = ["Proof/C18.v"]
 MANIFEST = {
-    "text": "Coq theorems over all histories of add_rule/startTestRun/stopTestRun/status calls on a router (any rule "
-            "set, any order, any event, any chain of StreamToQueue prefixes): every call is judged against the calls "
+    "text": "Coq theorems over all histories of add_rule (accepted or rejected)/startTestRun/stopTestRun/status calls "
+            "on a router (any rule set, any order, any event, any chain of StreamToQueue prefixes): a rejected add_rule "
+            "raises, reaches no sink and leaves every other observation unchanged; every call is judged against the calls "
             "made before it (invariant tying the router's dictionaries, _sinks and _in_run to the history), the "
             "consuming slice is the inverse of StreamToQueue.route_code (also at the level of '/'-joined strings), "
             "start/stop reach exactly the registered sinks, once per call, immediately on registration during a run. "
@@ -28,13 +29,22 @@ MANIFEST = {
 RULE = ("a router with/without fallback (do_start_stop_run on/off) over 6 recording sinks; rules over 2 route prefixes "
         "x consume on/off and test ids 2 + None x do_start_stop_run on/off inserted at every position of "
         "start,stop,start,stop (exhaustive for <= 2 rules, sampled in the quick tier), random histories with up to 5 "
-        "rules incl. unbalanced start/stop, duplicate keys and shared sinks; status probes with route None or 1-4 "
+        "rules incl. unbalanced start/stop, duplicate keys and shared sinks; REJECTED add_rule calls (table REJECTS: "
+        "unknown/None/unhashable policy -> ValueError/TypeError, route_prefix with '/', None or non-string, missing "
+        "or foreign keyword, unhashable test id) x do_start_stop_run on/off at every position of start,stop,start,stop, "
+        "alone, with a fresh sink next to accepted rules, retried with the same sink by an accepted rule (same or "
+        "later position), repeated, and with the sink of an earlier accepted rule, also in the random histories; "
+        "status probes with route None or 1-4 "
         "segments, direct or through 1-3 real StreamToQueue objects; non-trivial = at least one rule, one status "
         "call and one start/stop; distinct = distinct JSON")
 TRUSTED = ["doubles.StreamResult records the calls it receives faithfully; queue.Queue is FIFO"]
 ASSUMPTIONS = ["route segments, test ids, tags, file names, mime types and timestamps are mapped to small numbers by "
                "fixed injective tables (segment names have lengths 1..8 so that a wrong slice is visible)",
-               "rule keys: route prefixes are single '/'-free non-empty segments (add_rule rejects the others)"]
+               "rule keys: route prefixes are single '/'-free non-empty segments (add_rule rejects the others)",
+               "which add_rule calls are rejected is a table of the harness (REJECTS: the argument shapes the docstring "
+               "of add_rule names - ValueError for an unknown policy, TypeError for arguments the policy cannot handle); "
+               "the model carries what a rejected call does (raises, router unchanged, nothing delivered), not the "
+               "argument binding of Python; the kind of exception is not compared, only that the call raised"]
 EXPLANATION = ("Theorems in coq/Props/C18.v over all call histories; correspondence: every call of a generated history "
                "is made on a real StreamResultRouter (status calls directly or through real StreamToQueue objects "
                "whose queues are drained at once), the calls newly received by every sink after each call and "
@@ -48,6 +58,33 @@ STATUSES = ["exists", "inprogress", "xfail", "uxsuccess", "success", "fail", "sk
 BASE = datetime.datetime(2020, 1, 1, tzinfo=datetime.timezone.utc)
 GARBAGE = 4999
 NSINKS = 6
+
+# add_rule calls that must be rejected: (policy, policy_args).  AddRej's `why` is the index into this table.
+_UNHASHABLE = ["test0"]
+REJECTS = [
+    ("nosuch", {"route_prefix": "0"}),                                   # 0  unknown policy: ValueError
+    ("route_code_prefixa", {"route_prefix": "0", "consume_route": True}),  # 1
+    (None, {"test_id": "test0"}),                                        # 2
+    ("", {}),                                                            # 3
+    ("route_code_prefix", {"route_prefix": "0/1"}),                      # 4  more than one route step: TypeError
+    ("route_code_prefix", {"route_prefix": "0/", "consume_route": True}),  # 5
+    ("route_code_prefix", {"route_prefix": "/ab", "consume_route": False}),  # 6
+    ("route_code_prefix", {"route_prefix": "/"}),                        # 7
+    ("route_code_prefix", {"route_prefix": "ab/xyz/q7", "consume_route": True}),  # 8
+    ("route_code_prefix", {"route_prefix": None}),                       # 9  `"/" in None` raises
+    ("route_code_prefix", {"route_prefix": None, "consume_route": True}),  # 10
+    ("route_code_prefix", {"route_prefix": 0}),                          # 11
+    ("route_code_prefix", {}),                                           # 12 missing route_prefix
+    ("route_code_prefix", {"consume_route": True}),                      # 13
+    ("route_code_prefix", {"route_prefix": "0", "bogus": 1}),            # 14 foreign keyword
+    ("route_code_prefix", {"route_prefix": "ab", "consume_route": True, "test_id": "test0"}),  # 15
+    ("test_id", {}),                                                     # 16 missing test_id
+    ("test_id", {"test_id": "test0", "route_prefix": "0"}),              # 17 foreign keyword
+    ("test_id", {"test_id": None, "consume_route": True}),               # 18
+    ("test_id", {"route_prefix": "0"}),                                  # 19
+    ("test_id", {"test_id": _UNHASHABLE}),                               # 20 unhashable key
+    (_UNHASHABLE, {"test_id": "test1"}),                                 # 21 unhashable policy
+]
 
 
 # ---------------- python values <-> numbers ----------------
@@ -183,6 +220,12 @@ def drive(case):
                 if op[3] or idx % 2:
                     args["do_start_stop_run"] = op[3]
                 router.add_rule(sinks[op[1]], "test_id", **args)
+            elif k == "R":
+                policy, pargs = REJECTS[op[2]]
+                args = dict(pargs)
+                if op[3] or idx % 3 == 0:
+                    args["do_start_stop_run"] = op[3]
+                router.add_rule(sinks[op[1]], policy, **args)
             elif k == "S":
                 router.startTestRun()
             elif k == "T":
@@ -218,6 +261,8 @@ def t_op(op):
         return "(AddPrefix %s %s %s %s)" % (q.nat(op[1]), q.nat(op[2]), q.boolean(op[3]), q.boolean(op[4]))
     if k == "I":
         return "(AddId %s %s %s)" % (q.nat(op[1]), t_onat(op[2]), q.boolean(op[3]))
+    if k == "R":
+        return "(AddRej %s %s %s)" % (q.nat(op[1]), q.nat(op[2]), q.boolean(op[3]))
     if k == "S":
         return "Start"
     if k == "T":
@@ -302,7 +347,15 @@ def rule_options():
 def mk_rule(rule, sink):
     if rule[0] == "P":
         return ["P", sink, rule[1], rule[2], rule[3]]
+    if rule[0] == "R":
+        return ["R", sink, rule[1], rule[2]]
     return ["I", sink, rule[1], rule[2]]
+
+
+def rej(why, ss, share="fresh"):
+    """a rejected add_rule as a `placed` rule; share: 'fresh' = its own sink, 'next' = the sink the next placed
+    rule gets too (the caller retries / repeats with the same sink), 'prev' = the sink of the rule placed before"""
+    return ("R", why, ss, share)
 
 
 def skeleton_case(rng, placed, fbmode, nprobe=2, final=True):
@@ -314,8 +367,12 @@ def skeleton_case(rng, placed, fbmode, nprobe=2, final=True):
     for gap in range(5):
         for rule, g in placed:
             if g == gap:
+                if rule[0] == "R" and rule[3] == "prev":
+                    ops.append(mk_rule(rule, max(sink - 1, 1)))
+                    continue
                 ops.append(mk_rule(rule, sink))
-                sink += 1
+                if not (rule[0] == "R" and rule[3] == "next"):
+                    sink += 1
         ops += probes(rng, nprobe)
         if gap < 4:
             ops.append([marks[gap]])
@@ -336,16 +393,27 @@ def random_case(rng):
     in_run = False
     used_keys = set()
     opts = rule_options()
+    seen = []
     for _ in range(n_ops):
         x = rng.random()
-        if x < 0.22 and free:
+        if x < 0.10:
+            # a rejected add_rule: with a sink not used yet (possibly used later: the retry), with the sink of an
+            # earlier rule or of an earlier rejected call, or with the fallback
+            pool = ([free[-1]] if free else []) + seen + [0]
+            s = rng.choice(pool)
+            seen.append(s)
+            ops.append(["R", s, rng.randrange(len(REJECTS)), rng.random() < 0.6])
+            continue
+        if x < 0.30 and free:
             rule = rng.choice(opts)
             key = (rule[0], rule[1])
             if key in used_keys:
                 continue
             used_keys.add(key)
-            ops.append(mk_rule(rule, free.pop()))
-        elif x < 0.40:
+            s = free.pop()
+            seen.append(s)
+            ops.append(mk_rule(rule, s))
+        elif x < 0.46:
             ops.append(["T" if in_run else "S"])
             in_run = not in_run
         else:
@@ -382,6 +450,16 @@ def fixed_cases():
                                                   ["E", [], ev([0])], ["E", [], ev([0, 0])], ["E", [], ev([0, 0, 0, 0])],
                                                   ["E", [], ev([5, 0])], ["E", [], ev([5])], ["E", [0], ev(None)],
                                                   ["E", [0], ev([3, 1])], ["E", [1, 5], ev([2])], ["E", [0, 0, 0], ev([0])]]},
+        # rejected add_rule calls: during a run with do_start_stop_run, retried with the same sink; before a run;
+        # with the sink of an accepted rule; a rejected route_prefix=None must not capture events without route code
+        {"n": 3, "fb": 0, "fb_ss": True, "ops": [["S"], ["R", 1, 5, True], ["P", 1, 0, True, True],
+                                                 ["E", [], ev([0, 1], 0)], ["T"], ["S"], ["T"]]},
+        {"n": 3, "fb": 0, "fb_ss": True, "ops": [["R", 1, 4, True], ["R", 2, 0, True], ["S"], ["E", [], ev([0, 1], 0)],
+                                                 ["T"], ["R", 1, 17, True], ["I", 1, 0, True], ["S"], ["T"]]},
+        {"n": 3, "fb": None, "fb_ss": False, "ops": [["I", 1, 0, True], ["S"], ["R", 1, 14, True], ["R", 2, 9, False],
+                                                     ["E", [], ev(None, 0)], ["E", [], ev(None, 1)], ["T"]]},
+        {"n": 3, "fb": 0, "fb_ss": False, "ops": [["R", 1, 10, True], ["R", 2, 20, True], ["E", [], ev(None, None)],
+                                                  ["E", [], ev([0], 0)], ["S"], ["T"]]},
         # empty history
         {"n": 1, "fb": 0, "fb_ss": True, "ops": []},
     ]
@@ -395,6 +473,36 @@ def generate(rng, tier):
         for gap in range(5):
             for fbmode in range(3):
                 cases.append(skeleton_case(rng, [(rule, gap)], fbmode))
+    # one rejected add_rule at every position: every entry of REJECTS x do_start_stop_run; alone, retried by an
+    # accepted rule with the same sink at the same or a later position, after an accepted rule with that rule's sink
+    for why in range(len(REJECTS)):
+        for ss in (False, True):
+            for gap in range(5):
+                fbmodes = [rng.randrange(3)] if tier == "quick" else range(3)
+                for fbmode in fbmodes:
+                    cases.append(skeleton_case(rng, [(rej(why, ss), gap)], fbmode, nprobe=1))
+                    good = rng.choice(opts)
+                    later = rng.randint(gap, 4)
+                    cases.append(skeleton_case(rng, [(rej(why, ss, "next"), gap), (good, later)], fbmode, nprobe=1,
+                                               final=rng.random() < 0.5))
+                    good = rng.choice(opts)
+                    earlier = rng.randint(0, gap)
+                    cases.append(skeleton_case(rng, [(good, earlier), (rej(why, ss, "prev"), gap)], fbmode, nprobe=1,
+                                               final=rng.random() < 0.5))
+    # rejected calls among two or three accepted rules: fresh sink, repeated, retried
+    n_rej = 400 if tier == "quick" else 6000
+    for _ in range(n_rej):
+        k = rng.randint(1, 3)
+        keys = rng.sample([("P", 0), ("P", 2), ("I", 0), ("I", 1), ("I", None)], k)
+        placed = []
+        for kind, key in keys:
+            rule = (kind, key, rng.random() < 0.5, rng.random() < 0.5) if kind == "P" else (kind, key, rng.random() < 0.5)
+            placed.append((rule, rng.randrange(5)))
+        for _ in range(rng.randint(1, 2)):
+            r = rej(rng.randrange(len(REJECTS)), rng.random() < 0.7, rng.choice(["fresh", "next", "next", "prev"]))
+            placed.insert(rng.randint(0, len(placed)), (r, rng.randrange(5)))
+        placed.sort(key=lambda rg: rg[1])        # stable: keeps 'next'/'prev' neighbours of one gap together
+        cases.append(skeleton_case(rng, placed, rng.randrange(3), nprobe=1, final=rng.random() < 0.5))
     # two rules: exhaustive over (rule, gap) pairs with distinct keys; sampled in the quick tier
     pairs = []
     for (r1, g1), (r2, g2) in itertools.combinations([(r, g) for r in opts for g in range(5)], 2):
@@ -426,7 +534,7 @@ def generate(rng, tier):
 
 def nontrivial(case):
     kinds = set(op[0] for op in case["ops"])
-    return bool(kinds & {"P", "I"}) and "E" in kinds and bool(kinds & {"S", "T"})
+    return bool(kinds & {"P", "I", "R"}) and "E" in kinds and bool(kinds & {"S", "T"})
 
 
 def shrink(case):
@@ -468,7 +576,9 @@ def shrink(case):
 def distribution(cases):
     d = {"rules": {}, "fallback": {"none": 0, "plain": 0, "start_stop": 0}, "route_len": {}, "via_len": {},
          "rules_added_in_run": 0, "rules_added_outside_run": 0, "status_calls": 0, "duplicate_keys": 0,
-         "shared_sinks": 0, "ops": 0}
+         "shared_sinks": 0, "ops": 0,
+         "rejected": {"cases_with": 0, "calls": 0, "in_run": 0, "outside_run": 0, "start_stop": 0,
+                      "sink_accepted_later": 0, "sink_accepted_before": 0, "by_entry": {}}}
     for c in cases:
         rules = [op for op in c["ops"] if op[0] in "PI"]
         d["rules"][len(rules)] = d["rules"].get(len(rules), 0) + 1
@@ -478,8 +588,18 @@ def distribution(cases):
         sinks = [op[1] for op in rules] + ([c["fb"]] if c["fb"] is not None else [])
         d["shared_sinks"] += len(set(sinks)) != len(sinks)
         run = False
-        for op in c["ops"]:
+        rj = d["rejected"]
+        rj["cases_with"] += any(op[0] == "R" for op in c["ops"])
+        for idx, op in enumerate(c["ops"]):
             d["ops"] += 1
+            if op[0] == "R":
+                rj["calls"] += 1
+                rj["in_run" if run else "outside_run"] += 1
+                rj["start_stop"] += bool(op[3])
+                rj["by_entry"][op[2]] = rj["by_entry"].get(op[2], 0) + 1
+                rj["sink_accepted_later"] += any(o[0] in "PI" and o[1] == op[1] for o in c["ops"][idx + 1:])
+                rj["sink_accepted_before"] += any(o[0] in "PI" and o[1] == op[1] for o in c["ops"][:idx])
+                continue
             if op[0] == "S":
                 run = True
             elif op[0] == "T":
